@@ -77,17 +77,13 @@ theorem solve_rel_any (hbeq : ((0 : α) == 0) = true) {k : Nat} {Bw : KktSolver 
 first: structural invariants only, no condition on the initial point -/
 theorem solve_twice_obsN_any (hbeq : ((0 : α) == 0) = true) (st : Settings α) {KI : KktSolver α → Prop}
     {d : ProblemData α} {specs : List Kkt.ConeSpec} {S : Solver α} {r1 : SolveResult α}
-    (h1 : S.solve st = .ok r1) (hI : SolverInv KI d specs S) (hI1 : SolverInv KI d specs r1.S)
+    (h1 : S.solve st = .ok r1) (hI : SolverInv KI d specs S)
+    (hI1 : SolverInv KI r1.S.st.data specs r1.S)
     (hk : KktOk S.st) :
     ∃ r2, r1.S.solve st = .ok r2 ∧ SolveObs r1 r2 := by
-  obtain ⟨hk1, hB⟩ := solve_kktOkN h1 hI.st.shapes.cones hk
-  obtain ⟨hsh, _⟩ := solve_conesShape h1 hI.st.shapes.cones
-  have hd : S.st.data = r1.S.st.data := hI.st.data.trans hI1.st.data.symm
-  have hst : Stale (BwN S.st.kktsystem.kktsolver.map.sparse_maps.size st.lin) S.st r1.S.st :=
-    Stale.of_shapes hI.st.shapes hI1.st.shapes hd hsh hB
-  have hsol : SolShape ((Solver.presolveMap S.st.data).map (fun m => m.keep.size)) S.solution r1.S.solution := by
-    rw [hI.st.data]
-    exact solShape_of_sized hI.solution hI1.solution
-  exact (solve_rel_any hbeq st (kktSimN _ st.lin) hst hk.fit hsol).ok_left h1
+  obtain ⟨hst, hsol⟩ := stale_putBack h1 hI hI1 hk
+  have hrel := solve_rel_any hbeq st (kktSimN _ st.lin) (S' := r1.S.withData S.st.data) hst hk.fit hsol
+  rw [← solve_putBack h1 st] at hrel
+  exact hrel.ok_left h1
 
 end Clarabel.SolverNS
